@@ -503,6 +503,11 @@ func harnessAPI(name string) (IntrinsicFn, bool) {
 			}
 			return nil
 		}, true
+	case "verifOnExit":
+		return func(in *Interp, _ *frame, fn *ssa.Function, args []Value, _ tokenPos) Value {
+			in.ghost["env:exit"] = args[0]
+			return nil
+		}, true
 	case "verifNewLevelDB":
 		return func(in *Interp, _ *frame, fn *ssa.Function, args []Value, _ tokenPos) Value {
 			et := fn.Signature.Results().At(0).Type().(*types.Pointer).Elem()
@@ -515,6 +520,10 @@ func harnessAPI(name string) (IntrinsicFn, bool) {
 			m := in.ldbOf(args[0], pos)
 			m.slots = append(m.slots, &ldbSlot{key: in.toStrArg(args[1], pos), val: in.toStrArg(args[2], pos), present: args[3].(Sc).T})
 			return nil
+		}, true
+	case "verifLevelDBWrites":
+		return func(in *Interp, _ *frame, fn *ssa.Function, args []Value, pos tokenPos) Value {
+			return Sc{in.b.BV(uint64(in.ldbOf(args[0], pos).writes), 64)}
 		}, true
 	case "verifLevelDBLen":
 		return func(in *Interp, _ *frame, fn *ssa.Function, args []Value, pos tokenPos) Value {
@@ -593,13 +602,27 @@ func registerIntrinsics(e *Engine) {
 		in.goPanicf(pos, "log.Panic", "log.Panic")
 		return nil
 	})
-	exit := func(in *Interp, _ *frame, fn *ssa.Function, _ []Value, pos tokenPos) Value {
+	exit := func(in *Interp, caller *frame, fn *ssa.Function, _ []Value, pos tokenPos) Value {
+		if h, ok := in.ghost["env:exit"]; ok && !in.inYield {
+			// the harness observes the state at process exit
+			in.inYield = true
+			in.callValue(caller, h, nil, pos)
+			in.inYield = false
+			panic(&pathEnd{kind: "done", msg: "exit observed: " + fn.Name() + "@" + in.posStr(pos)})
+		}
 		panic(&pathEnd{kind: "exit", msg: fn.Name() + "@" + in.posStr(pos)})
 	}
 	for _, n := range []string{"log.Fatalf", "log.Fatal", "log.Fatalln", "os.Exit",
 		"github.com/stapelberg/glog.Fatalf", "github.com/stapelberg/glog.Fatal", "github.com/stapelberg/glog.Exitf"} {
 		reg(n, exit)
 	}
+	reg("os.MkdirTemp", func(in *Interp, _ *frame, _ *ssa.Function, args []Value, _ tokenPos) Value {
+		return TupleV{E: []Value{in.str.Const("/tmp/verif-model-dir"), IfaceV{}}}
+	})
+	reg("io/ioutil.TempDir", func(in *Interp, _ *frame, _ *ssa.Function, args []Value, _ tokenPos) Value {
+		return TupleV{E: []Value{in.str.Const("/tmp/verif-model-dir"), IfaceV{}}}
+	})
+	reg("os.RemoveAll", func(in *Interp, _ *frame, _ *ssa.Function, args []Value, _ tokenPos) Value { return IfaceV{} })
 	reg("os.Getenv", func(in *Interp, _ *frame, _ *ssa.Function, args []Value, _ tokenPos) Value {
 		return in.str.Const("")
 	})
@@ -618,6 +641,13 @@ func registerIntrinsics(e *Engine) {
 		o.heap = true
 		return PtrV{obj: o}
 	})
+	for _, nm := range []string{"flag.Int64", "flag.Uint64", "flag.Uint", "flag.Float64"} {
+		reg(nm, func(in *Interp, _ *frame, fn *ssa.Function, args []Value, _ tokenPos) Value {
+			o := in.newObj(args[1], fn.Signature.Results().At(0).Type().(*types.Pointer).Elem(), fn.Name())
+			o.heap = true
+			return PtrV{obj: o}
+		})
+	}
 	reg("flag.Duration", func(in *Interp, _ *frame, _ *ssa.Function, args []Value, _ tokenPos) Value {
 		o := in.newObj(args[1], types.Typ[types.Int64], "flag.Duration")
 		o.heap = true
